@@ -148,7 +148,7 @@ func (c *partialExecuteCodec) Encode(msg message.Message, dest io.Writer, versio
 		if err := primitive.WriteShortBytes(execute.QueryId, dest); err != nil {
 			return fmt.Errorf("cannot write EXECUTE query string: %w", err)
 		}
-		if version >= primitive.ProtocolVersion5 {
+		if version.SupportsResultMetadataId() {
 			if err := primitive.WriteShortBytes(execute.ResultMetadataId, dest); err != nil {
 				return fmt.Errorf("cannot write EXECUTE consistency level: %w", err)
 			}
@@ -169,7 +169,7 @@ func (c *partialExecuteCodec) EncodedLength(msg message.Message, version primiti
 	switch execute := msg.(type) {
 	case *PartialExecute:
 		length := primitive.LengthOfShortBytes(execute.QueryId)
-		if version >= primitive.ProtocolVersion5 {
+		if version.SupportsResultMetadataId() {
 			length += primitive.LengthOfShortBytes(execute.ResultMetadataId)
 		}
 		length += primitive.LengthOfShort
@@ -198,7 +198,7 @@ func (c *partialExecuteCodec) Decode(source io.Reader, version primitive.Protoco
 		return nil, errors.New("EXECUTE missing query id")
 	}
 
-	if version >= primitive.ProtocolVersion5 {
+	if version.SupportsResultMetadataId() {
 		if resultMetadataId, err = primitive.ReadShortBytes(reader); err != nil {
 			return nil, fmt.Errorf("cannot read EXECUTE result metadata id: %w", err)
 		}
@@ -213,9 +213,10 @@ func (c *partialExecuteCodec) Decode(source io.Reader, version primitive.Protoco
 	}
 
 	return &PartialExecute{
-		QueryId:     queryId,
-		Consistency: primitive.ConsistencyLevel(consistency),
-		Parameters:  reader.RemainingBytes(),
+		QueryId:          queryId,
+		ResultMetadataId: resultMetadataId,
+		Consistency:      primitive.ConsistencyLevel(consistency),
+		Parameters:       reader.RemainingBytes(),
 	}, nil
 }
 
